@@ -972,9 +972,15 @@ func (a *Activation) loopHead(li *loopInfo, b *ssa.BasicBlock, st *State) *State
 	// 1. invariant on entry
 	env := a.exprEnv(st, nil)
 	for i, c := range invs {
-		v := env.evalBool(c.Expr, c.Src)
-		name := fmt.Sprintf("%s#loop%d.entry[%s]", fname, li.ord, labelOr(c.Label, i))
-		t.oblige("loopinv", name, c.Label, st.pc, v, c.Src, c.Expr)
+		parts := splitConj(c.Expr)
+		for pi, part := range parts {
+			v := env.evalBool(part, c.Src)
+			name := fmt.Sprintf("%s#loop%d.entry[%s]", fname, li.ord, labelOr(c.Label, i))
+			if len(parts) > 1 {
+				name = fmt.Sprintf("%s#loop%d.entry[%s/%d]", fname, li.ord, labelOr(c.Label, i), pi+1)
+			}
+			t.oblige("loopinv", name, c.Label, st.pc, v, c.Src, part)
+		}
 	}
 	// remember the values for 'decreases'
 	// 2. havoc loop-carried values and the heap written in the loop
@@ -1176,9 +1182,15 @@ func (a *Activation) loopBack(li *loopInfo, from, header *ssa.BasicBlock, pc str
 	}
 	env := a.exprEnv(hst, nil)
 	for i, c := range invs {
-		v := env.evalBool(c.Expr, c.Src)
-		name := fmt.Sprintf("%s#loop%d.preserved@b%d[%s]", fname, li.ord, from.Index, labelOr(c.Label, i))
-		t.oblige("loopinv", name, c.Label, pc, v, c.Src, c.Expr)
+		parts := splitConj(c.Expr)
+		for pi, part := range parts {
+			v := env.evalBool(part, c.Src)
+			name := fmt.Sprintf("%s#loop%d.preserved@b%d[%s]", fname, li.ord, from.Index, labelOr(c.Label, i))
+			if len(parts) > 1 {
+				name = fmt.Sprintf("%s#loop%d.preserved@b%d[%s/%d]", fname, li.ord, from.Index, labelOr(c.Label, i), pi+1)
+			}
+			t.oblige("loopinv", name, c.Label, pc, v, c.Src, part)
+		}
 	}
 	if _, ok := t.arrSort["$calls"]; ok {
 		rc := t.fresh("frame:rc", "Int")
